@@ -332,6 +332,7 @@ def run(run):
         else:
             run.violated("C12.R4", hs, None, "half-space score is %s, expected min(np.dot(np.cross(a, b), p), 0)" % [show(t)[:100] for pc, t, n in rh.returns],
                          kind="score-form")
+    _r4_unit_vector(run)
     # four edges counter-clockwise, corners as (lat, lon) = (c[1], c[0])
     edges = [e for e in rs.events if e.kind == "call" and e.term[1] == ("sym", "_left_of_half_space_score")]
     cor = ("attr", tile_p, "corners")
@@ -516,3 +517,52 @@ def _grid_outside_wrap(t, G, lon, two_pi):
                 return True
         return False
     return visit(t, False)
+
+
+
+def _r4_unit_vector(run):
+    """The unit vector of a sky point (the input of every half-space test) depends on the point's longitude unless the point is
+    exactly a pole: a case distinction that hands a longitude-free vector to points merely *near* a pole (a tolerance test)
+    collapses them - and nearby tile corners - onto the pole, and the descent picks tiles around the pole."""
+    project = run.project
+    q = T + "._equ_to_xyz"
+    if not project.has(q):
+        return
+    f = project.fn(q)
+    run.note_func(f)
+    ev = sym.make_evaluator(project, T, [], inline_local=True)
+    r = ev.run(f.node)
+    ps = f.params()
+    if len(ps) < 2:
+        run.undecided("C12.R4", f, None, "_equ_to_xyz does not take (lat, lon)", kind="unit-vector")
+        return
+    lat, lon = ("sym", ps[0]), ("sym", ps[1])
+
+    def leaves(t, conds=()):
+        if isinstance(t, tuple) and t and t[0] == "ite":
+            return leaves(t[2], conds + ((t[1], True),)) + leaves(t[3], conds + ((t[1], False),))
+        return [(conds, t)]
+    n_bad = 0
+    all_leaves = []
+    for pc, t, node in r.returns:
+        for conds, v in leaves(t, tuple((c, p_) for c, p_ in pc if c != "loop")):
+            all_leaves.append((conds, v, node))
+    for conds, v, node in all_leaves:
+        if sym.contains(v, lon) and sym.contains(v, lat):
+            continue
+        taken = [(c, p_) for c, p_ in conds]
+        exact = taken and all(c[0] == "op" and c[1] == "cmp:Eq" and p_ for c, p_ in taken)
+        if not taken:
+            run.violated("C12.R4", f, node, "_equ_to_xyz returns %s, which does not depend on both coordinates of the point" % show(v)[:80], kind="unit-vector")
+        elif exact:
+            run.undecided("C12.R4", f, node, "_equ_to_xyz special-cases %s with a vector that ignores a coordinate" % "; ".join(show(c)[:50] for c, _ in taken), kind="unit-vector")
+        else:
+            run.violated("C12.R4", f, node, "_equ_to_xyz answers %s under the inexact test %s: every point (and tile corner) that merely passes the test loses its %s, so "
+                         "distinct points near the special position get one and the same vector and the containment tests that use it pick the wrong tile" % (
+                             show(v)[:60], "; ".join(("" if p_ else "not ") + show(c)[:60] for c, p_ in taken), "longitude" if not sym.contains(v, lon) else "latitude"),
+                         kind="unit-vector-collapsed")
+        n_bad += 1
+    if all_leaves and not n_bad:
+        run.holds("C12.R4", f, all_leaves[0][2], "_equ_to_xyz: every returned vector depends on both the latitude and the longitude of the point (%d case(s))" % len(all_leaves))
+    elif not all_leaves:
+        run.undecided("C12.R4", f, None, "_equ_to_xyz: no return value could be evaluated", kind="unit-vector")
